@@ -50,7 +50,7 @@ theorem taproot_precomputed {S : Bytes → Bytes} {tx : Tx} {prevouts : List TxO
     (hp : precompute S tx prevouts = .ok p) (i ht extFlag : Int) (annex msgExt : Bytes) :
     taproot S tx i prevouts ht extFlag annex msgExt (some p) =
       taproot S tx i prevouts ht extFlag annex msgExt none := by
-  unfold taproot taprootChecked
+  unfold taproot taprootChecked tapMid
   simp only [hp]
   rfl
 
